@@ -153,7 +153,7 @@ func TestVerifC19(t *testing.T) {
 		Property: "C19",
 		Cases:    vh.Pick(20000, 160000),
 		Rule: "case i mod 8: 0-2 JSON-RPC messages (ids: strings incl. empty/unicode/escapes, integers over the whole int64 range; params/results: random JSON trees with big/fractional numbers, escapes, <>&; errors with data) checked as decode(encode(x))==x and, from shuffled raw wire text, encode(decode(w))~w on id/method/params/result/error; " +
-			"3 hostile bytes (random, mutated valid messages, deep nesting, wrong-case keys); 4-5 MCP values (every content kind with _meta/annotations/nested content, every list result with nil and empty lists) checked for round trip and required non-null members; " +
+			"3 hostile bytes (random, mutated valid messages, deep nesting, wrong-case keys) and, every second of them, a result/params document of one of 18 protocol types with 1-2 sub-values replaced by null / a scalar / an array / an object of the wrong shape, decoded into that type (no panic); 4-5 MCP values (every content kind with _meta/annotations/nested content, every list result with nil and empty lists) checked for round trip and required non-null members; " +
 			"6-7 (1 in 40 of them) a live session over mem|pipe|sse|http|http-json with a wire monitor on every message and framing-hostile payloads. non-trivial: every case except rejected hostile inputs; distinct = distinct generated inputs (hash)",
 		MinNontrivial: 1000,
 		Shards:        0,
@@ -164,7 +164,11 @@ func TestVerifC19(t *testing.T) {
 		case 0, 1, 2:
 			c19Messages(c)
 		case 3:
-			c19Hostile(c)
+			if c.Index%16 == 3 {
+				c19HostileValues(c) // see c19hostile_test.go
+			} else {
+				c19Hostile(c)
+			}
 		case 4, 5:
 			c19Values(c)
 		default:
